@@ -374,3 +374,30 @@ def builder_chain(a1: Sel, b1: Sel, a2: Sel, b2: Sel, ovk: int, ovv: int, one_ca
     if exp_opt is None:
         return seen is None
     return snap(seen) == exp_opt if exp_opt[0] == "m" else seen == exp_opt[1]
+
+
+# ------------------------------------------------------------------------------------------------ file order vs. hash order
+from xh import permset as _ps      # noqa: E402
+
+_ps.inject(_NL, _NC)               # any set(...) built by name inside nunavut.lang / nunavut.lang._config iterates in a symbolic order
+
+
+def config_file_order_ignores_hash_order(rot: int, rev: bool, v1: int, v2: int) -> bool:
+    """
+    pre: 0 <= rot <= 2
+    post: _
+    """
+    # "later configuration file over earlier configuration file": the order in which the files were GIVEN decides, whatever order a
+    # hash-based container would iterate them in (PYTHONHASHSEED)
+    _ps.Order.rot, _ps.Order.rev = rot, rev
+    try:
+        _DOCS.clear()
+        _DOCS["f1"] = {_SEC: {"zz_top": v1, "options": {"zz_opt": v1, "only1": 1}}}
+        _DOCS["f2"] = {_SEC: {"zz_top": v2, "options": {"zz_opt": v2, "only2": 2}}}
+        b = _new_builder()
+        b.add_config_files("f1", "f2")
+        sec = b.config.sections()[_SEC]
+        return sec["zz_top"] == v2 and sec["options"]["zz_opt"] == v2 and sec["options"]["only1"] == 1 and sec["options"]["only2"] == 2 \
+            and list(sec["options"])[-2:] == ["only1", "only2"]
+    finally:
+        _ps.Order.rot, _ps.Order.rev = 0, False
